@@ -296,7 +296,7 @@ func (u *Unit) appendBuiltin(st *State, fr *Frame, in *ssa.Call, args []Val) Val
 	if !fitsPossible {
 		// always reallocates: clean fresh region
 		r := &Region{Blk: u.allocID(st), Fresh: true}
-		r.C = MkArr(func(j *Term) *Term {
+		r.C = u.mkArr(func(j *Term) *Term {
 			return Ite(Lt(j, sLen), Select(sC, Add(sOff, j)), Select(xArr, Add(xo, Sub(j, sLen))))
 		})
 		u.addRegion(st, r)
@@ -325,7 +325,7 @@ func (u *Unit) appendBuiltin(st *State, fr *Frame, in *ssa.Call, args []Val) Val
 	inr := func(j *Term) *Term { return And(fitsC, Le(lo, j), Lt(j, hi)) }
 	val := func(j *Term) *Term { return Select(xArr, Add(xo, Sub(j, lo))) }
 	oldC := sr.C
-	u.setContents(st, sr.Blk.S, MkArr(func(j *Term) *Term { return Ite(inr(j), val(j), Select(oldC, j)) }))
+	u.setContents(st, sr.Blk.S, u.mkArr(func(j *Term) *Term { return Ite(inr(j), val(j), Select(oldC, j)) }))
 	for _, e := range st.edges[sr.Blk.S] {
 		q := st.regions[e.Other]
 		if q == nil {
@@ -335,7 +335,7 @@ func (u *Unit) appendBuiltin(st *State, fr *Frame, in *ssa.Call, args []Val) Val
 			u.frameWriteCond(st, q, And(e.Cond, fitsC, Gt(n, IntLit(0))), "append in place "+what)
 		}
 		qC, cond := q.C, e.Cond
-		u.setContents(st, e.Other, MkArr(func(j *Term) *Term { return Ite(And(cond, inr(j)), val(j), Select(qC, j)) }))
+		u.setContents(st, e.Other, u.mkArr(func(j *Term) *Term { return Ite(And(cond, inr(j)), val(j), Select(qC, j)) }))
 	}
 	// 2. the result region
 	nb := u.newInt("ab")
@@ -352,7 +352,7 @@ func (u *Unit) appendBuiltin(st *State, fr *Frame, in *ssa.Call, args []Val) Val
 			Ite(Lt(Sub(j, no), sLen), Select(oldC, Add(sOff, Sub(j, no))), Select(xArr, Add(xo, Sub(Sub(j, no), sLen)))),
 			Ite(fitsC, Select(oldC, j), Select(other, j)))
 	}
-	R := &Region{Blk: nb, C: MkArr(body), Fresh: sr.Fresh}
+	R := &Region{Blk: nb, C: u.mkArr(body), Fresh: sr.Fresh}
 	u.addRegion(st, R)
 	// links: R ~ s.region when fits, and transitively s.region's links
 	link := func(a, b string, c *Term) {
@@ -429,6 +429,10 @@ func (u *Unit) useContract(st *State, fr *Frame, in *ssa.Call, fn *ssa.Function,
 		t := u.evalPure(st, cf, args, nil).(*Term)
 		u.check(st, fmt.Sprintf("%s#pre:%s:%s", FuncName(fr.fn), FuncName(fn), cl.Text), "pre", t, "precondition of "+FuncName(fn)+": "+cl.Text)
 	}
+	before := u.S.CheckSatT(u.Cfg.FeasMs)
+	if before == "unsat" {
+		return // the path is infeasible: nothing to execute
+	}
 	base := Add(st.wm, IntLit(int64(st.nalloc)))
 	res := u.havocResult(st, in.Type(), "ret_"+fn.Name())
 	u.bumpWatermark(st)
@@ -457,8 +461,11 @@ func (u *Unit) useContract(st *State, fr *Frame, in *ssa.Call, fn *ssa.Function,
 	// vacuity guard: a contract that is true of the body cannot make a
 	// feasible path infeasible
 	if u.S.CheckSatT(u.Cfg.FeasMs) == "unsat" {
-		u.Vacuous = append(u.Vacuous, fmt.Sprintf("postcondition of %s contradicts the path in %s", FuncName(fn), FuncName(fr.fn)))
-		u.limit("VACUOUS: postcondition of %s is contradictory at a call site in %s", FuncName(fn), FuncName(fr.fn))
+		if before == "sat" {
+			u.Vacuous = append(u.Vacuous, fmt.Sprintf("postcondition of %s contradicts the path in %s", FuncName(fn), FuncName(fr.fn)))
+			u.limit("VACUOUS: postcondition of %s is contradictory at a call site in %s", FuncName(fn), FuncName(fr.fn))
+		}
+		return
 	}
 	k(st, res)
 }
